@@ -662,7 +662,23 @@ def rule_btree_walk(ck):
     ck.ob("table.btree_walk", "is_right_kv/idx<len", ok, "", rk.loc())
 
 
+def rule_display_caps(ck):
+    """the documented truncation of huge collections must not creep down"""
+    prog = ck.prog
+    from rules import C08
+    ck.rule("table.display_caps", "guard_len / guard_cap (the documented artificial limit on displayed collection length and capacity) clamp to at least 10 000: every collection up to that size is shown with all its elements today, so any lower bound drops elements of collections the debugger currently shows completely")
+    SP = "debugger::variable::value::specialization::"
+    for g in ("guard_len", "guard_cap"):
+        f = ck.anchor(SP + g)
+        cl = [c for c in f.calls() if re.search(r"Ord::clamp$|Ord>::clamp$|Ord for [iu](8|16|32|64|128|size)>::clamp$|::min$", c.name)]
+        hv = None
+        if cl:
+            hv = C08._const_val(prog, expr_of(f, cl[0].args[-1]))
+        ck.ob("table.display_caps", f"{g}/upper-bound>=10000", hv is not None and hv >= 10_000, f"upper bound {hv}", f.loc(), what=f"{g} truncates collections the debugger used to show completely (nothing may be missing)")
+
+
 def run(ck):
+    rule_display_caps(ck)
     rule_btree_walk(ck)
     rule_discr_sign(ck)
     rule_hashbrown(ck)
